@@ -13,8 +13,16 @@ LOGGER_ATTRS = {"logger"}
 
 class CallMixin:
     # ------------------------------------------------------------------ assignment
-    def assign(self, t, v, path):
+    def assign(self, t, v, path, writeback=False):
+        """writeback: the new value of a container after an in-place operation (x.append(..), x[k] = ..) is stored where x lives"""
         if isinstance(t, ast.Name):
+            cur = path.env.get(t.id)
+            if isinstance(cur, sv.SPy) and cur.what == "alias":
+                if writeback:
+                    # the local names a container that lives in the heap (`cache = self.data`): the operation changes that object
+                    self.assign(cur.payload, v, path, writeback=True)
+                    return
+                # rebinding the local ends the alias
             if t.id not in path.env and getattr(self.registry, "module_state", None):
                 # in-place update of a module-level container declared as state
                 mod = self.frames[-1].module
@@ -32,6 +40,10 @@ class CallMixin:
                 self.assign(x, y, path)
             return
         if isinstance(t, ast.Attribute):
+            if not writeback:
+                for n, a in path.env.items():
+                    if isinstance(a, sv.SPy) and a.what == "alias" and a.payload.attr == t.attr:
+                        raise Unsupported(f"attribute '{t.attr}' is rebound while the local '{n}' aliases its container", t)
             base = self.eval(t.value, path)
             self.setattr(base, t.attr, v, path, t)
             return
@@ -41,22 +53,22 @@ class CallMixin:
                 r = self.lib_setslice(cont, t.slice, v, path, t)
                 if r is None:
                     raise Unsupported("slice assignment", t)
-                self.assign(t.value, r, path)
+                self.assign(t.value, r, path, writeback=True)
                 return
             key = self.eval(t.slice, path)
             if isinstance(cont, sv.SUnion) and any(isinstance(x, sv.SDict) for _g, x in cont.alts):
                 cont = self.expect(cont, sv.SDict, path, t)
             if isinstance(cont, sv.SDict):
-                self.assign(t.value, self.dict_set(cont, key, v), path)
+                self.assign(t.value, self.dict_set(cont, key, v), path, writeback=True)
                 return
             if isinstance(cont, sv.SList):
                 act = self.norm_index(cont, key, path, t)
                 nl = sv.SList(cont.n, lambda i, cont=cont, act=act, v=v: sv.ite(i == act, v, cont.at(i)), cont.fresh)
-                self.assign(t.value, nl, path)
+                self.assign(t.value, nl, path, writeback=True)
                 return
             r = self.lib_setitem(cont, key, v, path, t)
             if r is not None:
-                self.assign(t.value, r, path)
+                self.assign(t.value, r, path, writeback=True)
                 return
             raise Unsupported(f"item assignment on {cont}", t)
         raise Unsupported(f"assignment target {t.__class__.__name__}", t)
@@ -788,7 +800,7 @@ class CallMixin:
                 x = args[0]
                 n = base.n
                 nl = sv.SList(sv.simp(n + 1), lambda i, base=base, n=n, x=x: sv.ite(i == n, x, base.at(i)), base.fresh)
-                self.assign(lvalue, nl, path)
+                self.assign(lvalue, nl, path, writeback=True)
                 return sv.NONE
             if attr == "pop":
                 if args:
@@ -805,10 +817,10 @@ class CallMixin:
                 else:
                     nl = sv.SList(sv.simp(base.n - 1), base.at, base.fresh)
                     r = base.at(sv.simp(base.n - 1))
-                self.assign(lvalue, nl, path)
+                self.assign(lvalue, nl, path, writeback=True)
                 return r
             if attr == "clear":
-                self.assign(lvalue, sv.SList(z3.IntVal(0), lambda i: sv.NONE, base.fresh), path)
+                self.assign(lvalue, sv.SList(z3.IntVal(0), lambda i: sv.NONE, base.fresh), path, writeback=True)
                 return sv.NONE
             if attr == "copy":
                 return sv.SList(base.n, base.at, True)
@@ -827,7 +839,7 @@ class CallMixin:
                 if isinstance(o, sv.SList):
                     n = base.n
                     nl = sv.SList(sv.simp(n + o.n), lambda i, base=base, n=n, o=o: sv.ite(i < n, base.at(i), o.at(i - n)), base.fresh)
-                    self.assign(lvalue, nl, path)
+                    self.assign(lvalue, nl, path, writeback=True)
                     return sv.NONE
         if isinstance(base, sv.SDict):
             if attr == "items":
@@ -843,7 +855,7 @@ class CallMixin:
                 dflt = args[1] if len(args) > 1 else sv.NONE
                 return sv.ite(self.key_guarded(key, base.dom), self.dict_get(base, key), dflt)
             if attr == "clear":
-                self.assign(lvalue, self.empty_dict(), path)
+                self.assign(lvalue, self.empty_dict(), path, writeback=True)
                 return sv.NONE
             if attr == "copy":
                 return base
@@ -855,10 +867,10 @@ class CallMixin:
                     d = base
                     for k, v in other.payload.items():
                         d = self.dict_set(d, self.const(k), v)
-                    self.assign(lvalue, d, path)
+                    self.assign(lvalue, d, path, writeback=True)
                     return sv.NONE
                 if isinstance(other, sv.SDict):
-                    self.assign(lvalue, self.dict_merge(base, other, path), path)
+                    self.assign(lvalue, self.dict_merge(base, other, path), path, writeback=True)
                     return sv.NONE
             if attr == "pop":
                 key = args[0]
@@ -866,20 +878,20 @@ class CallMixin:
                 if len(args) == 1:
                     self.safe(path, "key", has, node)
                     r = self.dict_get(base, key)
-                    self.assign(lvalue, self.dict_del(base, key), path)
+                    self.assign(lvalue, self.dict_del(base, key), path, writeback=True)
                     return r
                 k = self.choose(path, [has, sv.Not(has)])
                 if k == 1:
                     return args[1]
                 r = self.dict_get(base, key)
-                self.assign(lvalue, self.dict_del(base, key), path)
+                self.assign(lvalue, self.dict_del(base, key), path, writeback=True)
                 return r
         if isinstance(base, sv.SSet):
             if attr == "add":
-                self.assign(lvalue, self.set_add(base, args[0]), path)
+                self.assign(lvalue, self.set_add(base, args[0]), path, writeback=True)
                 return sv.NONE
             if attr == "clear":
-                self.assign(lvalue, self.empty_set(), path)
+                self.assign(lvalue, self.empty_set(), path, writeback=True)
                 return sv.NONE
             if attr == "pop":
                 ks = getattr(base, "ksort", sv.IntS)
@@ -889,7 +901,7 @@ class CallMixin:
                 card = None if base.card is None else base.card - 1
                 ns = sv.SSet(lambda k, base=base, w=w: sv.And(k != w, base.dom(k)), card, base.kwrap)
                 ns.ksort = ks
-                self.assign(lvalue, ns, path)
+                self.assign(lvalue, ns, path, writeback=True)
                 return base.kwrap(w)
         r = self.lib_container_method(base, attr, args, kwargs, lvalue, path, node)
         if r is not None:
